@@ -1126,8 +1126,6 @@ Section RTS.
     unfold bind at 1. unfold get_off at 1. rewrite p_off_st_after, Hx, Hn. reflexivity.
   Qed.
 
-  Definition wf_stmts' (l : list stmt) : Prop := wf_stmts l.
-
   Lemma parse_stanza_ok q z L s r n : WfQuery X q -> wf_stmts (st_stmts z) -> WfLayout X L ->
     x_query X (p_off s) (p_off s + bytes q) = Some (QOk n (Some (st_full_stanza_idx z))) -> (1 <? n) = false ->
     p_rest s = (q ++ block_text tbl (sub L 1) (st_stmts z)) ++ r -> (len s < F)%nat ->
